@@ -332,7 +332,11 @@ func ruleC03_5(c *Ctx) {
 		name := "Frag.Owner write in " + shortFn(encl)
 		v := strip(w.Val)
 		if isNilConst(v) {
-			c.ok(name, c.at(w.Instr), "cleared")
+			// `Owner == nil` is how conn.sread and OnSClosed recognise the proxy's own fragments (topology probe, ASKING):
+			// clearing it on a fragment that may still be in flight turns a client's late reply into a "probe reply"
+			_, fresh := strip(w.Base).(*ssa.Alloc)
+			c.check(fresh, name+" (cleared)", c.at(w.Instr), "set up of a new fragment",
+				"Frag.Owner is set to nil on an existing fragment: a request completed early (error on a sibling fragment, timeout) is recycled while its other fragments are still in flight; with Owner == nil their late replies are taken for replies to the topology probe and handed to the refresh goroutine, which slices them as CLUSTER NODES text (index out of range: the proxy exits)")
 			continue
 		}
 		prm, isParam := v.(*ssa.Parameter)
@@ -348,7 +352,9 @@ func ruleC03_5(c *Ctx) {
 		name := "Frag.Peer write in " + shortFn(encl)
 		v := strip(w.Val)
 		if isNilConst(v) {
-			c.ok(name, c.at(w.Instr), "cleared")
+			_, fresh := strip(w.Base).(*ssa.Alloc)
+			c.check(fresh, name+" (cleared)", c.at(w.Instr), "set up of a new fragment",
+				"Frag.Peer is set to nil on an existing fragment that may still be in flight: conn.sread and the close/timeout handlers dereference the request of every client fragment")
 			continue
 		}
 		_, isParam := v.(*ssa.Parameter)
